@@ -216,6 +216,15 @@ def execute(case):
             args = []
             for k in idx:
                 r = inputs[k]["root"]
+                if spelling == "abslink":
+                    # an absolute path to a symbolic link that lives in a directory with neither the configs nor
+                    # the module files: only the real location may matter
+                    os.makedirs(os.path.join(sc.root, "alias"), exist_ok=True)
+                    lp = os.path.join(sc.root, "alias", "in%d_%s" % (k, os.path.basename(r)))
+                    if not os.path.lexists(lp):
+                        os.symlink(os.path.join("..", r), lp)
+                    args.append("$ROOT/alias/" + os.path.basename(lp))
+                    continue
                 args.append("$ROOT/" + r if spelling == "abs" else os.path.relpath(r, cwd))
             inv = {"argv": ["--color", "never"] + list(margs) + list(case["cli"]) + args, "cwd": cwd,
                    "hashseed": case["hashseed"] if seed is None else seed, "env": env or {},
@@ -342,7 +351,7 @@ def execute(case):
                 v.add("C15:hashseed-mutation-order", "mutating operations differ under another hash seed")
                 break
         # (c) other cwd / spelling / environment
-        for cwd, sp in (("d0", "rel"), (".", "abs")):
+        for cwd, sp in (("d0", "rel"), (".", "abs"), ("d0", "abslink")):
             res, pf, muts, argv = run(list(perms[0]), cwd=cwd, spelling=sp)
             if pf != base_pf or res.exit != base_res.exit:
                 diff = sorted(f for f in set(pf) | set(base_pf) if pf.get(f) != base_pf.get(f))
